@@ -414,6 +414,7 @@ class Gen:
         text = strip_attrs(strip_docs(it.text))
         if widen:
             # R10: visibility only
+            text = re.sub(r'^(\s*)pub\(crate\)\s+', r'\1', text, count=1)
             text = re.sub(r'^(\s*)(struct|enum|trait|const)\b', r'\1pub \2', text, count=1)
             text = re.sub(r'^(\s*pub const \w+\s*:\s*)&str\b', r"\1&'static str", text)
             text = re.sub(r'^(\s*)(?!pub\b)([a-z_][A-Za-z0-9_]*\s*:)', r'\1pub \2', text, flags=re.M)
